@@ -159,6 +159,13 @@ theorem asyncFlush_nopush (s : St) (k : Cont) (hp : s.pending ≠ []) : (asyncFl
     · rename_i h; exact absurd h hp
     · unfold startWrite; split <;> rfl
 
+theorem Fl.fields {ok : Bool} {s s' : St} {k : Cont} (h : Fl ok s s' k) :
+    s'.ws = s.ws ∧ s'.submitted = s.submitted ∧ s'.started = s.started ∧ s'.log = s.log ∧ s'.readBusy = s.readBusy ∧
+    s'.inbox = s.inbox ∧ s'.rx = s.rx ∧ s'.wire = s.wire ∧ s'.healthy = s.healthy ∧ s'.rd = s.rd := by
+  have := h.vis
+  simp only [Sonic.Model.WsAsync.vis, Prod.mk.injEq] at this
+  exact this
+
 theorem asyncFlush_submitted (s : St) (k : Cont) : (asyncFlush true s k).submitted = s.submitted := by
   have := (asyncFlush_fl s k).vis
   simp only [vis, Prod.mk.injEq] at this
